@@ -49,6 +49,11 @@ Inductive val :=
 
 Definition env := list (string * val).
 
+(* concatenation of statement lists (kept apart from [app] on byte strings, which the proofs
+   keep folded while they evaluate programs) *)
+Fixpoint sapp (a b : list stmt) : list stmt :=
+  match a with [] => b | s :: r => s :: sapp r b end.
+
 Fixpoint lookup (x : string) (en : env) : val :=
   match en with
   | [] => VErr
@@ -94,14 +99,14 @@ Section Interp.
     | Sub, VInt x, VInt y => VInt (x - y)
     | Mul, VInt x, VInt y => VInt (x * y)
     | Mul, VBytes x, VInt n => VBytes (repeat_bytes (Z.to_nat n) x)
-    | Pow, VInt x, VInt y => if y <? 0 then VErr else VInt (x ^ y)
-    | Mod, VInt x, VInt y => if y =? 0 then VErr else VInt (x mod y)
-    | FloorDiv, VInt x, VInt y => if y =? 0 then VErr else VInt (x / y)
+    | Pow, VInt x, VInt y => match y with Zneg _ => VErr | _ => VInt (x ^ y) end
+    | Mod, VInt x, VInt y => match y with 0 => VErr | _ => VInt (x mod y) end
+    | FloorDiv, VInt x, VInt y => match y with 0 => VErr | _ => VInt (x / y) end
     | BitXor, VInt x, VInt y => VInt (Z.lxor x y)
     | BitAnd, VInt x, VInt y => VInt (Z.land x y)
     | BitOr, VInt x, VInt y => VInt (Z.lor x y)
-    | LShift, VInt x, VInt y => if y <? 0 then VErr else VInt (Z.shiftl x y)
-    | RShift, VInt x, VInt y => if y <? 0 then VErr else VInt (Z.shiftr x y)
+    | LShift, VInt x, VInt y => match y with Zneg _ => VErr | _ => VInt (Z.shiftl x y) end
+    | RShift, VInt x, VInt y => match y with Zneg _ => VErr | _ => VInt (Z.shiftr x y) end
     | _, VErr, _ => VErr
     | _, _, VErr => VErr
     | _, _, _ => obj_op op a b
@@ -178,7 +183,7 @@ Section Interp.
     | EIndex a i =>
         match eval en a, eval en i with
         | VBytes b, VInt k =>
-            let k' := if k <? 0 then len b + k else k in
+            let k' := match k with Zneg _ => len b + k | _ => k end in
             if (0 <=? k') && (k' <? len b) then VInt (nth (Z.to_nat k') b 0) else VErr
         | VTuple l, VInt k => if (0 <=? k) && (k <? Z.of_nat (List.length l)) then nth (Z.to_nat k) l VErr else VErr
         | _, _ => VErr
@@ -203,7 +208,7 @@ Section Interp.
     end.
 
   Definition is_self (k : string) : bool := String.prefix "self." k.
-  Definition self_part (en : env) : env := filter (fun kv => is_self (fst kv)) en.
+  Definition self_part (en : env) : env := filter (fun kv => let '(k, _) := kv in is_self k) en.
   (* write the callee's self.* entries back into the caller's environment *)
   Fixpoint merge_self (callee caller : env) : env :=
     match callee with
@@ -236,66 +241,62 @@ Section Interp.
     | _ => is_err (eval en e)
     end.
 
-  (* continuation-passing: [k] receives the outcome of the statement list *)
-  Fixpoint exec (fuel : nat) (en : env) (ss : list stmt) (k : outcome -> outcome) {struct fuel} : outcome :=
+  Fixpoint exec (fuel : nat) (en : env) (ss : list stmt) {struct fuel} : outcome :=
     match fuel with
-    | O => k OFuel
+    | O => OFuel
     | S f =>
       match ss with
-      | [] => k (ONormal en)
+      | [] => ONormal en
       | s :: rest =>
         match s with
         | SAssign t e =>
-            let v := eval en e in if is_err v then k ORaise else exec f (set_var t v en) rest k
+            match eval en e with VErr => ORaise | v => exec f (set_var t v en) rest end
         | SAssignTuple ts e =>
             match eval en e with
-            | VTuple vs => if any_err vs then k ORaise else
-                           match set_tuple ts vs en with Some en' => exec f en' rest k | None => k ORaise end
-            | _ => k ORaise
+            | VTuple vs => if any_err vs then ORaise else
+                           match set_tuple ts vs en with Some en' => exec f en' rest | None => ORaise end
+            | _ => ORaise
             end
         | SSliceAssign t lo hi e =>
             match lookup t en, eval en e with
             | VBytes b, VBytes v =>
                 match opt_int (match lo with Some x => Some (eval en x) | None => None end) 0,
                       opt_int (match hi with Some x => Some (eval en x) | None => None end) (len b) with
-                | Some l, Some h => exec f (set_var t (VBytes (py_splice b l h v)) en) rest k
-                | _, _ => k ORaise
+                | Some l, Some h => exec f (set_var t (VBytes (py_splice b l h v)) en) rest
+                | _, _ => ORaise
                 end
-            | _, _ => k ORaise
+            | _, _ => ORaise
             end
         | SAug t op e =>
-            let v := bin op (lookup t en) (eval en e) in
-            if is_err v then k ORaise else exec f (set_var t v en) rest k
+            match bin op (lookup t en) (eval en e) with VErr => ORaise | v => exec f (set_var t v en) rest end
         | SIf c th el =>
-            if cond_err en c then k ORaise
-            else if cond_val en c then exec f en (th ++ rest) k else exec f en (el ++ rest) k
+            if cond_err en c then ORaise
+            else if cond_val en c then exec f en (sapp th rest) else exec f en (sapp el rest)
         | SWhile c body =>
-            if cond_err en c then k ORaise
-            else if cond_val en c then exec f en (body ++ s :: rest) k else exec f en rest k
-        | SReturn e => let v := eval en e in if is_err v then k ORaise else k (OReturn en v)
-        | SExpr e => if is_err (eval en e) then k ORaise else exec f en rest k
+            if cond_err en c then ORaise
+            else if cond_val en c then exec f en (sapp body (s :: rest)) else exec f en rest
+        | SReturn e => match eval en e with VErr => ORaise | v => OReturn en v end
+        | SExpr e => match eval en e with VErr => ORaise | _ => exec f en rest end
         | SAssert c =>
-            if cond_err en c then k ORaise else if cond_val en c then exec f en rest k else k ORaise
-        | SRaise => k ORaise
-        | SPass => exec f en rest k
+            if cond_err en c then ORaise else if cond_val en c then exec f en rest else ORaise
+        | SRaise => ORaise
+        | SPass => exec f en rest
         | SCall target fname args =>
             let vs := map (eval en) args in
-            if any_err vs then k ORaise else
+            if any_err vs then ORaise else
             match meth fname with
-            | None => k ORaise
+            | None => ORaise
             | Some (ps, body) =>
-                exec f (bind ps vs (self_part en)) body
-                  (fun o =>
-                     match o with
-                     | ONormal en' =>
-                         let en'' := merge_self en' en in
-                         exec f (match target with Some t => set_var t VNone en'' | None => en'' end) rest k
-                     | OReturn en' v =>
-                         let en'' := merge_self en' en in
-                         exec f (match target with Some t => set_var t v en'' | None => en'' end) rest k
-                     | ORaise => k ORaise
-                     | OFuel => k OFuel
-                     end)
+                match exec f (bind ps vs (self_part en)) body with
+                | ONormal en' =>
+                    let en'' := merge_self en' en in
+                    exec f (match target with Some t => set_var t VNone en'' | None => en'' end) rest
+                | OReturn en' v =>
+                    let en'' := merge_self en' en in
+                    exec f (match target with Some t => set_var t v en'' | None => en'' end) rest
+                | ORaise => ORaise
+                | OFuel => OFuel
+                end
             end
         end
       end
@@ -303,7 +304,7 @@ Section Interp.
 
   (* call a function: bind parameters in the given initial environment (object state) *)
   Definition call (fuel : nat) (init : env) (ps : list string) (body : list stmt) (vs : list val) : outcome :=
-    exec fuel (bind ps vs init) body (fun o => o).
+    exec fuel (bind ps vs init) body.
 
   (* the value a call produces: the returned value, None for falling off the end, VErr for an
      exception (or running out of fuel, which the theorems exclude by giving enough) *)
